@@ -274,13 +274,14 @@ def run_int(case):
 def lines_int(case, res):
     if res["errors"] and res["errors"][0][0] == "construct":
         return []
-    pre = pre_tok(case["static"], None, res["construct_points"])
     lines = []
     for k in range(case["calls"]):
-        if len(res["points"][k]) != 1 or len(res["ipoints"][k]) != 1:
+        p = used_points_of(res, k)
+        q_ = pick_points(res["ipoints"][k], None)
+        if p is None or q_ is None:
             lines.append(None)
             continue
-        p, q_ = res["points"][k][0], res["ipoints"][k][0]
+        pre = pre_tok(case["static"], None, p["rows"])
         lines.append(" ".join(["int", tok_space(p["space"]), tok_space(q_["space"]), tok_table(p["rows"]), tok_table(q_["rows"]),
                                net_tok(case["net"]), resid_ufun_tok(case),
                                lst(case["data"], lambda d: d["name"] + " " + fn_tok(d)), pre,
@@ -299,10 +300,11 @@ def judge_int(rep, case, res, replies):
         return
     body = [pe_from_json(b) for b in case["net"]["body"]]
     for k in range(case["calls"]):
-        if len(res["points"][k]) != 1 or len(res["ipoints"][k]) != 1:
-            rep.fail(f"IntegroPINNCondition: forward call {k} drew {len(res['points'][k])} point sets and {len(res['ipoints'][k])} integral point sets", case)
+        p = used_points_of(res, k)
+        q_ = pick_points(res["ipoints"][k], None)
+        if p is None or q_ is None:
+            rep.fail(f"IntegroPINNCondition: forward call {k} drew no point set / no integral point set", case)
             continue
-        p, q_ = res["points"][k][0], res["ipoints"][k][0]
         n = len(p["rows"])
         args, out, loss = res["resid_args"][k], res["resid_out"][k], res["losses"][k]
         if args is None:
@@ -552,11 +554,18 @@ def run_sm(case):
             cond = tp.conditions.HPM_EquationLoss_at_Sampler(model, sampler, resid, **kw)
         elif cls == "aw":
             cond = tp.conditions.AdaptiveWeightsCondition(model, sampler, resid, error_fn=ERR_FNS[case["err"]](tp, torch), **kw)
-            w0 = cond.adaptive_layer.weight
-            out["aw_initial_ones"] = bool(torch.all(w0 == 1.0)) and len(w0) == len(case["weights"])
-            out["aw_registered"] = any(p is w0 for p in cond.parameters())
-            with torch.no_grad():
-                w0.copy_(torch.tensor([float(F(v)) for v in case["weights"]]))
+            layer = getattr(cond, "adaptive_layer", None)
+            w0 = getattr(layer, "weight", None)
+            if w0 is None:
+                # the weights are not reachable under their documented name: the sub-oracle is skipped, the loss is
+                # checked with the initial weights (all 1)
+                out["aw_skipped"] = True
+                case["weights"] = ["1"] * len(case["weights"])
+            else:
+                out["aw_initial_ones"] = bool(torch.all(w0 == 1.0)) and len(w0) == len(case["weights"])
+                out["aw_registered"] = any(p is w0 for p in cond.parameters())
+                with torch.no_grad():
+                    w0.copy_(torch.tensor([float(F(v)) for v in case["weights"]]))
         else:
             cond = tp.conditions.SingleModuleCondition(model, sampler, resid, ERR_FNS[case["err"]](tp, torch),
                                                        reduce_fn=RED_FNS[case["red"]](torch), **kw)
@@ -612,13 +621,12 @@ def lines_sm(case, res):
     lines = []
     if res["errors"] and res["errors"][0][0] == "construct":
         return lines
-    pre = pre_tok(case["static"], case["interval"], res["construct_points"])
     for k in range(case["calls"]):
-        pts = res["points"][k]
-        if len(pts) != 1:
+        p = used_points_of(res, k)
+        if p is None:
             lines.append(None)
             continue
-        p = pts[0]
+        pre = pre_tok(case["static"], case["interval"], p["rows"])
         if case["cls"] == "aw":
             lines.append(" ".join(["aw", tok_space(p["space"]), tok_table(p["rows"]), net_tok(case["net"]), resid_ufun_tok(case),
                                    lst(case["data"], lambda d: d["name"] + " " + fn_tok(d)), pre,
@@ -633,9 +641,45 @@ def lines_sm(case, res):
     return lines
 
 
-def pre_tok(static, interval, construct_points, rows_of=lambda c: c["rows"]):
-    """static flag, resample interval, the point sets the sampler handed out during construction"""
-    return f"{1 if static else 0} {'inf' if interval is None else interval} " + lst(construct_points, lambda c: tok_table(rows_of(c)))
+def pre_tok(static, interval, kept_rows):
+    """static flag, resample interval, the point set a never-resampling static sampler keeps (by value).  How many
+    times the sampler was asked for it during construction is deliberately NOT transmitted: no theorem needs it."""
+    return f"{1 if static else 0} {'inf' if interval is None else interval} " + tok_table(kept_rows)
+
+
+def same_points(a, b):
+    return a["space"] == b["space"] and a["rows"] == b["rows"]
+
+
+def pick_points(cands, prev, args=None):
+    """the point set a forward call USED: the sampler may be asked any number of times per call (also zero times, if the
+    points are kept elsewhere) — what matters is which set reached the residual.  None = undecidable."""
+    if not cands:
+        return prev
+    if all(same_points(c, cands[0]) for c in cands):
+        return cands[0]
+    if args:
+        for c in cands:
+            ok, seen_any = True, False
+            for i, (nm, d) in enumerate(c["space"]):
+                if nm in args:
+                    seen_any = True
+                    k0 = sum(dd for _, dd in c["space"][:i])
+                    col = [r[k0:k0 + d] for r in c["rows"]]
+                    got = args[nm]
+                    if not rows_close(got * len(col) if len(got) == 1 and len(col) > 1 else got, col, 1e-6, 1e-9):
+                        ok = False
+            if ok and seen_any:
+                return c
+    return cands[-1]
+
+
+def used_points_of(res, k):
+    prev = None
+    for j in range(k + 1):
+        args = res["resid_args"][j] if j < len(res.get("resid_args", [])) else None
+        prev = pick_points(res["points"][j], prev, args)
+    return prev
 
 
 def parse_reply(r):
@@ -754,23 +798,26 @@ def judge_sm(rep, case, res, replies):
         return
     if not res.get("weight_ok", True):
         rep.fail("condition.weight is not the weight given to the constructor", case)
-    if cls == "aw" and not (res.get("aw_initial_ones") and res.get("aw_registered")):
+    if cls == "aw" and res.get("aw_skipped"):
+        rep.count("oracle-skipped:adaptive-weights-not-visible")
+    elif cls == "aw" and not (res.get("aw_initial_ones") and res.get("aw_registered")):
         rep.fail("AdaptiveWeightsCondition: the point weights are not one learnable, registered weight 1.0 per sampled point", case)
-    want_draws = len(case["data"]) if (case["static"] and case["interval"] is None) else 0
-    if len(res["construct_points"]) != want_draws:
-        rep.disagree("sm: number of point sets drawn from the sampler during construction", case,
-                     len(res["construct_points"]), want_draws)
+    if case["static"] and case["interval"] is None:
+        # a never-resampling static sampler keeps ONE point set: whatever number of times it was asked (at construction,
+        # per forward call), every answer is that set, by value
+        allsets = list(res["construct_points"]) + [c for cs in res["points"] for c in cs]
+        if any(not same_points(c, allsets[0]) for c in allsets):
+            rep.fail("a static sampler that never resamples handed out different point sets to one condition", case)
     f32 = case["sampler"] == "tp"       # the library's samplers emit float32: everything downstream is float32
     ltol = (3e-4, 1e-4) if f32 else (TOL["rel"], TOL["abs"])
     atol = (1e-4, 1e-5) if f32 else (1e-12, 1e-12)
     if f32:
         rep.count("sm:library-sampler:" + case["tp"]["kind"])
     for k in range(case["calls"]):
-        pts = res["points"][k]
-        if len(pts) != 1:
-            rep.fail(f"forward call {k} drew {len(pts)} point sets from its sampler (expected exactly one)", case)
+        p = used_points_of(res, k)
+        if p is None:
+            rep.fail(f"forward call {k}: no point set was ever drawn from the condition's sampler", case)
             continue
-        p = pts[0]
         n = len(p["rows"])
         loss = res["losses"][k]
         if not f32 and res.get("f32", [False] * (k + 1))[k]:
@@ -947,8 +994,8 @@ def judge_data(rep, case, res, replies):
             else:
                 doc = sum(sum(v ** case["norm"] for v in a) / len(a) for a in per_batch) / len(per_batch)
         else:
-            if len(seen) != 1:
-                rep.fail(f"data condition: forward call {k} evaluated the model {len(seen)} times", case)
+            if any(t["rows"] != seen[0]["rows"] for t in seen):
+                rep.fail(f"data condition: forward call {k} evaluated the model on {len(seen)} different row sets", case)
                 continue
             a = per_batch[0]
             doc = max(a) if case["norm"] == "inf" else sum(v ** case["norm"] for v in a) / len(a)
@@ -1044,19 +1091,20 @@ def run_per(case):
     if case["custom"]:
         kw["error_fn"] = ERR_FNS[case["err"]](tp, torch)
         kw["reduce_fn"] = RED_FNS[case["red"]](torch)
-    out = dict(losses=[], rows=[], errors=[], pre_left=None, pre_right=None)
+    out = dict(losses=[], rows=[], errors=[])
     try:
-        with cc.StaticTap() as tap:
-            cond = tp.conditions.PeriodicCondition(model, interval, resid, **kw)
-        top = [c for c in tap.calls if c[0] == 0]
-        nd = len(case["data"])
-        if case["static"]:
-            out["pre_left"], out["pre_right"] = [c[2] for c in top[:nd]], [c[2] for c in top[nd:2 * nd]]
-            out["pre_count_ok"] = len(top) == 2 * nd
+        cond = tp.conditions.PeriodicCondition(model, interval, resid, **kw)
     except Exception as e:  # noqa
         out["errors"].append(("construct", classify_exc(e)))
         return out
-    rec_l, rec_r = Recorder(cond.left_sampler), Recorder(cond.right_sampler)
+    # the end-point samplers are attributes of the condition; if a refactoring keeps them elsewhere the end points are
+    # taken to be the interval's (per_rows) and the by-name oracle on x_left / x_right still decides
+    class _NoCalls:
+        calls = []
+    ls_, rs_ = getattr(cond, "left_sampler", None), getattr(cond, "right_sampler", None)
+    rec_l = Recorder(ls_) if ls_ is not None else _NoCalls()
+    rec_r = Recorder(rs_) if rs_ is not None else _NoCalls()
+    out["endpoint_samplers_visible"] = ls_ is not None and rs_ is not None
     if not do_startup(case, [cond], out, [obs.resid_args, obs.resid_out]):
         return out
     for k in range(case["calls"]):
@@ -1077,12 +1125,23 @@ def run_per(case):
     return out
 
 
-def per_rows(case, r):
-    """(xl, xr, xb) per row from the recorded left/right/non-periodic points of one forward call"""
-    if len(r["left"]) != 1 or len(r["right"]) != 1 or (case["bspace"] and len(r["b"]) != 1):
+def per_rows(case, r, prev=None):
+    """(xl, xr, xb) per row from the recorded left/right/non-periodic points of one forward call; the end-point
+    samplers may be asked any number of times (equal answers), or not at all (the end points are then the interval's)"""
+    def one(cands, fallback):
+        if not cands:
+            return fallback
+        return cands[0]["rows"] if all(c["rows"] == cands[0]["rows"] for c in cands) else None
+    B = one(r["b"], prev[2] if prev else None) if case["bspace"] else None
+    if case["bspace"] and B is None:
         return None
-    L, R = r["left"][0]["rows"], r["right"][0]["rows"]
-    B = r["b"][0]["rows"] if case["bspace"] else [[] for _ in L]
+    n = len(B) if case["bspace"] else 1
+    L = one(r["left"], [[F(case["a"])]] * n)
+    R = one(r["right"], [[F(case["b"])]] * n)
+    if L is None or R is None:
+        return None
+    if not case["bspace"]:
+        B = [[] for _ in L]
     if not (len(L) == len(R) == len(B)):
         return None
     return list(zip(L, R, B))
@@ -1104,18 +1163,14 @@ def lines_per(case, res):
     full = psp + case["bspace"]
     lines = []
 
-    def pre(recs):
-        return pre_tok(case["static"], None, recs or [], rows_of=lambda rc: reorder_rows(rc, full))
     for k in range(case["calls"]):
         rows = per_rows(case, res["rows"][k])
         if rows is None:
             lines.append(None)
             continue
-        try:
-            pl, pr = pre(res["pre_left"]), pre(res["pre_right"])
-        except KeyError:
-            lines.append(None)
-            continue
+        # the sets a static non-periodic sampler keeps: end point next to the non-periodic row, per side
+        pl = pre_tok(case["static"], None, [list(t[0]) + list(t[2]) for t in rows])
+        pr = pre_tok(case["static"], None, [list(t[1]) + list(t[2]) for t in rows])
         lines.append(" ".join(["per", tok_space(psp), tok_space(case["bspace"]),
                                lst(rows, lambda t: " ".join(cc.tok_vec(v) for v in t)),
                                net_tok(case["net"]), resid_ufun_tok(case),
@@ -1153,6 +1208,8 @@ def expected_args_per(case, rows):
 def judge_per(rep, case, res, replies):
     rep.count("per:" + ("static" if case["static"] else "empty-sampler" if not case["bspace"] else "non-static"))
     rep.count(f"per:data-fns={len(case['data'])}")
+    if res.get("endpoint_samplers_visible") is False:
+        rep.count("oracle-skipped:periodic-end-point-samplers-not-visible")
     count_shapes(rep, [case["resid"]] + case["data"])
     count_startup(rep, case)
     if any(case["pv"] in [n for n, _ in d["defaults"]] for d in case["data"]):
@@ -1161,8 +1218,6 @@ def judge_per(rep, case, res, replies):
         for where, what in res["errors"]:
             rep.fail(f"periodic condition raised at {where}: {what}", case)
         return
-    if case["static"] and not res.get("pre_count_ok", True):
-        rep.notes.append("periodic/static: unexpected number of construction-time samples")
     for k in range(case["calls"]):
         rows = per_rows(case, res["rows"][k])
         if rows is None:
@@ -1374,8 +1429,12 @@ def run_don(case, only=None):
             st["error"] = classify_exc(e)
             out["errors"].append((f"iteration {k} condition {j}", st["error"]))
         st["points"] = rec.calls[b:]
-        if fset.param_batch is not None:
-            st["pp"] = cc.points_record(fset.param_batch)          # the input functions currently in the branch net
+        pb = getattr(fset, "param_batch", None)
+        if pb is None and rec_p.calls:
+            pb_rec = rec_p.calls[-1]             # the batch is not visible on the set: the last batch its sampler drew
+            st["pp"] = pb_rec
+        elif pb is not None:
+            st["pp"] = cc.points_record(pb)          # the input functions currently in the branch net
         if len(obs.resid_args) > n_obs:
             st["args"], st["out"] = obs.resid_args[-1], obs.resid_out[-1]
         st["batch"] = len(rec_p.calls)           # number of function batches drawn so far
@@ -1392,12 +1451,12 @@ def lines_don(case, res):
     lines = []
     for st in res["steps"]:
         sub = case["subs"][st["j"]]
-        if len(st["points"]) != 1 or st["pp"] is None:
+        p, pp = pick_points(st["points"], None, st["args"]), st["pp"]
+        if p is None or pp is None:
             lines.append(None)
             continue
-        pre = pre_tok(sub["static"], None, res["construct_points"][st["j"]])
+        pre = pre_tok(sub["static"], None, p["rows"])
         fso = "1 " + tok_space(case["fout"]) + " " + fn_tok(case["fn"]) if sub["use_f"] else "0"
-        p, pp = st["points"][0], st["pp"]
         lines.append(" ".join(["don", tok_space(pp["space"]), tok_space(p["space"]), tok_table(pp["rows"]), tok_table(p["rows"]),
                                net_tok(net), fso, resid_ufun_tok(sub),
                                lst(sub["data"], lambda d: d["name"] + " " + fn_tok(d)), pre,
@@ -1446,10 +1505,10 @@ def judge_don(rep, case, res, replies):
         first_of_iter.setdefault(k, st["j"])
         tag = f"iteration {k}, condition {st['j']}" + ("" if first_of_iter[k] == st["j"] else " (not the first of its iteration)")
         rep.count("don:" + ("static" if sub["static"] else "non-static") + (":uses-function-set-output" if sub["use_f"] else ""))
-        if len(st["points"]) != 1 or st["pp"] is None:
-            rep.fail(f"PIDeepONetCondition ({tag}) drew {len(st['points'])} location sets", case)
+        p, pp = pick_points(st["points"], None, st["args"]), st["pp"]
+        if p is None or pp is None:
+            rep.fail(f"PIDeepONetCondition ({tag}) never drew a location set", case)
             continue
-        p, pp = st["points"][0], st["pp"]
         nF, n = len(pp["rows"]), len(p["rows"])
         args, out, loss = st["args"], st["out"], st["loss"]
         if args is None:
@@ -1557,7 +1616,53 @@ def key_of(case):
     return c
 
 
-def run(ctx, rep, cases=None):
+def variants(case, rng):
+    """neighbours of a case on which a correspondence broke: the same condition evaluated more often, after a
+    training start, with the static flag flipped — the failing-input search is intensified on exactly this case"""
+    out = []
+    import copy
+    for startup in (None, "hook", "fit"):
+        for more in (0, 2):
+            v = copy.deepcopy(case)
+            if "calls" in v and v["kind"] != "don":
+                v["calls"] = v["calls"] + more
+            elif more:
+                continue
+            if v["kind"] == "don" and startup == "fit":
+                continue
+            v["startup"] = startup
+            out.append(v)
+            if v["kind"] in ("sm", "int") and v.get("interval") is None and v.get("cls") != "aw":
+                w = copy.deepcopy(v)
+                w["static"] = not w["static"]
+                out.append(w)
+    return out
+
+
+def intensify(ctx, rep, run_fn, already_failed):
+    """after the main pass: for every case with a broken correspondence but no property failure, run the oracles on
+    its variants; failures found there become the failing input"""
+    seen, todo = set(), []
+    for d in rep.disagreements:
+        c = d["input"]
+        c = c["case"] if isinstance(c, dict) and "case" in c and "kind" not in c else c
+        key = common.json.dumps(key_of(c), sort_keys=True, default=str) if isinstance(c, dict) and "kind" in c else None
+        if key and key not in seen and len(todo) < 8:
+            seen.add(key)
+            todo.append(c)
+    if not todo or already_failed:
+        return
+    sub = common.Report(ctx)
+    vs = [v for c in todo for v in variants(c, ctx.rng) if c["kind"] in GEN]
+    if vs:
+        run_fn(ctx, sub, vs, _intensify=False)
+        rep.failures += sub.failures
+        for k, v in sub.known_hits.items():
+            rep.known_hits.setdefault(k, v)
+        rep.notes.append(f"correspondence broke on {len(todo)} case(s): oracles re-run on {len(vs)} variants, {len(sub.failures)} failing inputs found")
+
+
+def run(ctx, rep, cases=None, _intensify=True):
     rep.rule = ("seeded grammar-directed conditions (classes, samplers static/non-static/finite resample interval, learnable "
                 "parameters, data functions with defaults, permuted space orders, derivatives, custom error/reduce); "
                 "non-trivial = at least 2 sampled rows and (>= 2 variables or a data function or a parameter); "
@@ -1588,6 +1693,8 @@ def run(ctx, rep, cases=None):
         rp = [per_case.get(ci, {}).get(j) for j in range(max(1, r["_nlines"], c.get("calls", 1)))]
         rep.case(key_of(c), nontrivial(c), sample=dict(case=key_of(c), losses=r.get("losses"), model=rp[:2]), kind=c["kind"] + c.get("cls", ""))
         JUDGE[c["kind"]](rep, c, r, rp)
+    if _intensify and rep.disagreements:
+        intensify(ctx, rep, run, bool(rep.failures))
 
 
 def replay(ctx, obj):
